@@ -450,6 +450,18 @@ func compoundStrats(ctx *run.Ctx, base []namedStrat, count int) []namedStrat {
 			return strategy.NewSplitStrategy(row.New(cfg), decorator.NewInverseStrategy(strategy.NewBuyAndHoldStrategy()))
 		}, 0)
 	}
+	// one side ends in an unbuffered stage (a decorator) and pads a warm-up, the
+	// other says exactly one thing per snapshot: on short inputs either side may
+	// finish first
+	for i := 0; i < min(count, 2); i++ {
+		a := pick()
+		add(fmt.Sprintf("strategy.SplitStrategy (decorator.InverseStrategy (%s) | strategy.BuyAndHoldStrategy)", a.Name), a.Warm, func() strategy.Strategy {
+			return strategy.NewSplitStrategy(decorator.NewInverseStrategy(a.New()), strategy.NewBuyAndHoldStrategy())
+		}, 0)
+		add(fmt.Sprintf("strategy.SplitStrategy (strategy.BuyAndHoldStrategy | decorator.NoLossStrategy (%s))", a.Name), a.Warm, func() strategy.Strategy {
+			return strategy.NewSplitStrategy(strategy.NewBuyAndHoldStrategy(), decorator.NewNoLossStrategy(a.New()))
+		}, 0)
+	}
 	for i := 0; i < min(count, 3); i++ {
 		a := pick()
 		add(fmt.Sprintf("strategy.SplitStrategy (strategy.BuyAndHoldStrategy | %s)", a.Name), a.Warm, func() strategy.Strategy {
